@@ -405,18 +405,30 @@ def compare_rock(sc, o, l):
         if not out.startswith("rebuild=ok"):
             return False
         res = dict(x.split("=", 1) for x in out.split(" ")[1:])
+        torn_in_head = any(c[0] == "n" and 40 < c[2] < 40 + cal[0] for _, c in sc["phases"])
         for k in range(sc["nkeys"]):
             mine, whole = res.get("k%d" % k, "?/?").split("/")
+            if torn_in_head and "x" in whole[2:].split("+") and f["first"][k] != "M":
+                continue         # the torn first piece is served: its reply header is a mix the piece abstraction cannot describe
             if not same_lookup(f["first"][k], whole, "k%d" % k, vers, cal, slot_size):
                 return False
             if mine != whole and "f" not in mine:      # the per-position model may differ only where a foreign slot is involved
                 return False
     # (a) the writer/allocator model predicts the whole scenario
     for ops, c in sc["phases"]:
-        if c[0] == "n" and 40 < c[2] < 40 + cal[1]:
-            return True          # a write torn inside the swap metadata: what the parser makes of the mix is not predicted
+        if c[0] == "n" and 40 < c[2] < 40 + cal[0]:
+            return True          # a write torn inside the swap metadata / reply header of a first piece: what the parsers make of
+                                 # the mix of new and old bytes is outside the piece abstraction
         if any(op[0] == "C" for op in ops):
             return True
+        # slot numbers after a PURGE depend on when squid drops the purged entry's read lock (the slots of the entry stored by
+        # the preceding operation, and of single-slot geometries, are freed later): the allocation is not predicted then
+        last_store = None
+        for op in ops:
+            if op[0] in "SF":
+                last_store = op[1]
+            elif op[0] == "P" and (op[1] == last_store or slot_size >= 32768):
+                return True
     pred = drive([scenario_line(l, o)])[0]
     pp = pred.split(" | ")
     real_tr = dict((int(x.split(":", 1)[0]), x.split(":", 1)[1]) for x in o["trace"].split("|") if ":" in x)
